@@ -145,6 +145,9 @@ func famEncodings(g *Gen, tier string, shard, nshards int) {
 	}
 	for h := 0; h < nHist; h++ {
 		s := newSim(g, rowConfigs[g.Intn(len(rowConfigs))])
+		// half of the histories: partial map forests learn the leaves to delete only through
+		// Verify(remember=true) of the block's (non-canonical) encoding
+		s.ingestMode = h%2 == 1
 		s.applyBlock(nil, 2+g.Intn(maxAdds*2))
 		s.obsRoots()
 		nBlocks := 2 + g.Intn(maxBlocks)
